@@ -6,11 +6,12 @@ import gzip
 import itertools
 import os
 import random
+import re
 import shutil
 import tempfile
 from typing import Any, Dict, Iterable, List, Optional
 
-from harness.core import Case, Check, Finding, call, canon, err_name, short
+from harness.core import OUTSIDE, Case, Check, Finding, call, canon, err_name, short
 
 # The column names of the STATEMENT (document id, region id, line id, text, the three boxes): the oracle's own
 # vocabulary.  They are what the oracle expects to find in the records, whatever the code says; the lists the CODE
@@ -467,10 +468,24 @@ def _valid_config(rng, docs, xml_safe) -> Dict[str, Any]:
     return inp
 
 
-def _tags_rt(inp) -> List[str]:
-    docs = inp['docs']
-    why = _in_quantifier(docs)
-    tags = []
+def _rt_outside(inp) -> Optional[str]:
+    """None if the round-trip input (documents + configuration) is one the statement quantifies over, else the reason.
+    Quantifier of C14 (properties.jsonl): "all lists of documents with nested regions (each region holding either lines
+    or sub-regions ...), all lines having coordinates, and ids and text free of tab, carriage-return and newline
+    characters ...; bounding-box columns on/off for the record stream (always on when documents are rebuilt); default
+    and explicit column headers; outer/inner region ids; several line files; header modes; group-by modes".  Outside:
+    a region with lines AND sub-regions, an element without coordinates (statement: "documents with their bounding
+    boxes"), a tab / CR / LF in an id or a text, and the misconfigurations (a header that is no column of the records,
+    box columns without boxes, rebuilding without box columns or from a subset of the columns, headerless files read
+    with default columns they were not written in, grouping by a column that is not written).  Repeated ids are NOT
+    excluded by the statement: they are inside (compared exactly), only not judged by the oracle."""
+    why = _in_quantifier(inp['docs'])
+    if why is not None:
+        return why
+    return None if _cfg_ok(inp) else 'misconfiguration'
+
+
+def _cfg_ok(inp) -> bool:
     full = BASE + (BOXES if inp['bbox'] else [])
     explicit = inp.get('headers')
     hs = explicit if explicit is not None else writer_default()
@@ -478,15 +493,30 @@ def _tags_rt(inp) -> List[str]:
     # writer's own default (`headers=None`) is within the statement whenever the box columns are on, whatever it is
     cols_ok = (inp['bbox'] if explicit is None
                else len(hs) > 0 and len(set(hs)) == len(hs) and all(h in full for h in hs))
-    cfg_ok = (cols_ok
-              and (inp.get('read_mode') != 'default' or explicit is None or hs == reader_default(inp['bbox']))
-              and inp.get('rebuild_bbox', True)
-              and (not inp.get('rebuild') or explicit is None or sorted(hs) == sorted(ALL))
-              and (not inp.get('groupby') or inp['groupby'] in hs))
+    return bool(cols_ok
+                and (inp.get('read_mode') != 'default' or explicit is None or hs == reader_default(inp['bbox']))
+                and inp.get('rebuild_bbox', True)
+                and (not inp.get('rebuild') or explicit is None or sorted(hs) == sorted(ALL))
+                and (not inp.get('groupby') or inp['groupby'] in hs))
+
+
+def _tags_rt(inp) -> List[str]:
+    docs = inp['docs']
+    why = _in_quantifier(docs)
+    tags = []
+    cfg_ok = _cfg_ok(inp)
     if why is None and cfg_ok and _ids_distinct(docs, inp['outer']) and _ids_distinct(docs, not inp['outer']):
         tags.append('valid')
+    elif why is None and cfg_ok:
+        # inside the quantifier (the statement does not exclude repeated ids): model and code are compared exactly;
+        # the oracle stays silent because its expected values identify documents and regions by their ids
+        tags.append('ids-repeat')
     else:
-        tags.append('outside-quantifier')
+        # outside the quantifier (see _rt_outside): the model mirrors the code, a difference is only recorded, the
+        # oracle does not judge the case.  In particular "ids and text free of tab, carriage-return and newline
+        # characters": what the writer does with such a character is not the statement's business
+        tags.append(OUTSIDE)
+        tags.append('outside:' + (why or 'misconfiguration'))
     if inp.get('rebuild') and _flat_first_line(docs, inp['outer']):
         tags.append('flat-first-line')
     tags.append('mode:' + inp.get('read_mode', 'has_headers'))
@@ -839,7 +869,105 @@ def _legacy_cases(rng, n) -> List[Case]:
     return out
 
 
+# what the writer produces for a box: str(int) of x, y and of a non-negative w, h
+_BOX_WRITTEN = re.compile(r'(?:0|-?[1-9][0-9]*),(?:0|-?[1-9][0-9]*),(?:0|[1-9][0-9]*),(?:0|[1-9][0-9]*)')
+
+
+def _raw_outside(inp) -> Optional[str]:
+    """hand-written line files: None if they are line-format files as the writer produces them, read in a
+    configuration of the quantifier; else the reason.  The statement speaks of files WRITTEN from documents ("writing
+    documents ... to the tab-separated line format and reading them back", "fed ... a line-format file"); what the
+    reader does with anything else (short or long rows, a missing or padded header line, bare CR line ends or a CR in
+    a value, a missing final newline, box fields that are no boxes, grouping by another column, rebuilding without
+    all seven columns) is not stated — not even that it is rejected — so such files are outside the quantifier."""
+    files, explicit, hh, bbox = inp['files'], inp.get('headers'), inp['has_headers'], inp['bbox']
+    if not files:
+        return 'no line file'
+    cols = list(explicit) if explicit is not None else None if hh else reader_default(bbox)
+    rows = []
+    for f in files:
+        # CRLF line ends are what the writer's text mode produces where os.linesep is CRLF; any other CR is a CR inside a
+        # value ("ids and text free of tab, carriage-return and newline characters") or a line end no writer produces
+        f = f.replace('\r\n', '\n')
+        if '\r' in f:
+            return 'CR in a line file'
+        if f and not f.endswith('\n'):
+            return 'no final newline'
+        lines = f[:-1].split('\n') if f else []
+        if explicit is None and hh:
+            if not lines:
+                return 'header line missing'
+            if cols is None:
+                cols = lines[0].split('\t')
+            if lines[0] != '\t'.join(cols):
+                return 'header lines differ'
+            lines = lines[1:]
+        rows.extend(lines)
+    if not cols or len(set(cols)) != len(cols) or any(c not in ALL for c in cols):
+        return 'columns that are not (distinct) columns of the line format'
+    for r in rows:
+        fields = r.split('\t')
+        if len(fields) != len(cols):
+            return 'row with another number of columns'
+        if any(c in BOXES and not _BOX_WRITTEN.fullmatch(v) for c, v in zip(cols, fields)):
+            return 'box field that is no written box'
+    g = inp.get('groupby')
+    if g and (g not in ('doc_id', 'textregion_id') or g not in cols):   # "grouping by document or region"
+        return 'grouping by a column that is no document or region id of the file'
+    if inp.get('rebuild') and not (bbox and all(c in cols for c in ALL)):   # "(always on when documents are rebuilt)"
+        return 'rebuilding without all seven columns'
+    return None
+
+
+def _box_outside(inp) -> Optional[str]:
+    """a box string handed to the box reader: inside iff it is what the writer produces for some coordinates"""
+    if 'points' in inp or _BOX_WRITTEN.fullmatch(inp['s']):
+        return None
+    return 'no box string the writer produces'
+
+
+def _legacy_outside(inp) -> Optional[str]:
+    """the older three-column format: the writer writes no header line and three columns, so reading with a header
+    line expected (has_header, or no header list at all: the first record is then consumed as header) or with a list
+    that does not name three columns is a misconfiguration; tab / CR / LF in ids or text as for the main format"""
+    hs = inp.get('headers')
+    if inp.get('has_header') or hs is None:
+        return 'a header line is expected in a format that has none'
+    if len(hs) != 3 or len(set(hs)) != 3:
+        return 'header list that does not name the three columns'
+    for d in inp['docs']:
+        for x in _strings(d):
+            if x is not None and any(c in x for c in '\t\r\n'):
+                return 'tab/CR/LF in an id or text'
+    return None
+
+
+def outside_quantifier(kind: str, inp) -> Optional[str]:
+    """None if the case input lies inside the quantifier of the statement, else the reason (computed from the input
+    itself, never from the stream that generated it)"""
+    if kind == 'rt':
+        return _rt_outside(inp)
+    if kind == 'raw':
+        return _raw_outside(inp)
+    if kind == 'box':
+        return _box_outside(inp)
+    if kind == 'legacy':
+        return _legacy_outside(inp)
+    return None
+
+
 def gen_cases(rng: random.Random, tier: str) -> List[Case]:
+    out = _gen_cases(rng, tier)
+    for c in out:
+        # cases outside the quantifier carry core.OUTSIDE: model and code are still compared on them, a difference is
+        # recorded in the evidence and breaks nothing, and the oracle does not judge them (`oracle` asks
+        # outside_quantifier itself).  (round-trip cases got the tag in _tags_rt)
+        if OUTSIDE not in c.tags and outside_quantifier(c.kind, c.input) is not None:
+            c.tags.append(OUTSIDE)
+    return out
+
+
+def _gen_cases(rng: random.Random, tier: str) -> List[Case]:
     quick = tier == 'quick'
     out: List[Case] = []
     out += _corpus()
@@ -967,7 +1095,15 @@ class C14(Check):
         'keys by the obligations C14_consts_record_keys / C14_consts_rebuild_keys, and the relations the theorems need '
         'of the defaults are the other C14_consts_* theorems (decided on the tables). Records read from files are '
         'stated in the order of the header list and proved to be the same dictionary (List.Perm) as the in-memory '
-        'record; equal as lists when the reader default is in record-key order (C14_routes_agree_same_order).')
+        'record; equal as lists when the reader default is in record-key order (C14_routes_agree_same_order). '
+        'Correspondence level: inputs outside the quantifier, decided per case from its input, carry core.OUTSIDE and are '
+        'mirrored only, not judged (a tab / CR / LF in an id or text, a region with lines and sub-regions, an element '
+        'without coordinates, misconfigured columns / modes; hand-written files that no writer produces: wrong column '
+        'counts, bare CR, missing header or final newline, box fields that are no written boxes; box strings no writer '
+        'produces; the older format read with a header expected or not three column names); inside it records, files, ids, '
+        'texts, document and line boxes, counts and error-freeness are compared exactly — only the box of a REBUILT '
+        'region, which the statement does not list, is not compared. Documents with repeated ids are inside (compared '
+        'exactly), not judged by the oracle.')
     assumptions = [
         'gzip.open(..., "wt"/"rt") is the identity on text; reading translates \\r\\n and \\r to \\n (universal newlines)',
         'str.strip()/isspace: whitespace set sent per request from the running CPython (ws); column names contain none',
@@ -1329,8 +1465,16 @@ class C14(Check):
         if 'err' in i or 'err' in m:
             return None if i == m else f'{name}: impl={short(i)} model={short(m)}'
         if name == 'rebuild':
-            ii = [{k: v for k, v in d.items() if k != 'other_children'} for d in i['ok']]
-            return None if ii == m['ok'] else f'rebuild: impl={short(ii, 900)} model={short(m["ok"], 900)}'
+            # the statement lists what a rebuilt document reproduces: "every document id, text-region id, line id, line
+            # text ... and the document and line bounding boxes ... one text region per region id written, with the
+            # same line and word counts".  The box of a rebuilt REGION is not in that list (the region boxes are fixed
+            # as values of the record stream, compared above), so it is not compared here.
+            def stated(docs):
+                return [dict({k: v for k, v in d.items() if k not in ('other_children', 'regions')},
+                             regions=[{k: v for k, v in r.items() if k != 'box'} for r in d['regions']])
+                        for d in docs]
+            ii, mm = stated(i['ok']), stated(m['ok'])
+            return None if ii == mm else f'rebuild: impl={short(ii, 900)} model={short(mm, 900)}'
         if name.endswith('grouped'):
             mm = [self._recs(g) for g in m['ok']]
         else:
@@ -1387,6 +1531,10 @@ class C14(Check):
         def bad(key, what):
             fs.append(Finding(f'C14:{key}', what, case, out))
         k, inp = case.kind, case.input
+        # cases outside the quantifier are not judged (decided from the input, so that shrunk candidates are classified
+        # by what they are): the statement says nothing about them
+        if outside_quantifier(k, inp) is not None:
+            return fs
         # grouping is judged on every stream the reader produced
         if k in ('rt', 'raw'):
             g = inp.get('groupby')
